@@ -36,7 +36,8 @@ BAD = {
                   "translateX()", "scaleY(q)", "skewY(1,2)", "matrix(1 0 0 1 0)", "((", "translate(1)(2)", "rotate()", "scale()", "skew()", "translate(1e, 2)"],
     "colour": ["#12", "#12345", "#gggggg", "rgb(1.5,2,3)", "rgb(1,2)", "rgb(a,b,c)", "rgb(300,0,0", "rgba(1,2,3)", "hsl(120)", "hsl(a,b%,c%)", "notacolor", "url(#x)", "url(#",
                "", "#", "rgb()", "rgb(10%,20,30%)", "inherit", "rgb(1e400,0,0)", "0x123456", "rgb(1,2,3,4,5)", "hsla(1,2%,3%)", "rgb(,,)", "#1234567", "rgb(-1,-2,-3)", "rgb(1 2 3)",
-               "hsl(1turn, 5, 6)", "rgba(1,2,3,x)", "#+1+2+3", "rgb(50%,50%)", "transparent", "rgb(1.5%,2.5%,3.5%)"],
+               "hsl(1turn, 5, 6)", "rgba(1,2,3,x)", "#+1+2+3", "rgb(50%,50%)", "transparent", "rgb(1.5%,2.5%,3.5%)",
+               "rgb(1e999%,0%,0%)", "rgb(0%,-1e999%,0%)", "hsl(1e999, 50%, 50%)", "rgba(1,2,3,1e999)", "hsl(10, 1e999%, 50%)", "rgba(10%,20%,30%,1e999)"],
     "length": ["abc", "12qq", "", "1e", "--1", "1..2", "1,2", "10 20", "-5", "1e400", "NaN", "inf", "12 px", "%", "px", "1e-400", "0x10", "１２", "+", ".", "1e+", "5%%", "calc(1px)", "-1e400", "auto"],
     "points": ["1", "1,2,3", "a,b", "1,2 3", "1,,2", "", "1 2 3 4 5", "1e,2", "1,2,c,4", ",", "1,2;3,4", "1e400,1 2,3", "NaN,NaN 1,1", "1-2-3", "..", "1,2 3,4 z"],
     "viewbox": ["a b c d", "0 0 10", "0 0 0 0", "0 0 -10 10", "0,0,10", "", "0 0 10 10 10", "0 0 1e400 1", "0 0 10 0", "0", "0 0 10 x", "1e-400 0 1e-400 1", ", , ,", "0 0 NaN 10"],
